@@ -53,20 +53,36 @@ def valSx : Val Rat → SExp
 
 def errSx (k : ErrKind) : SExp := list [atom "err", atom k.str]
 
+/-- `Fn.rat` with a guard against astronomically large exponentials (anything above 2^5000 is an overflow for the
+    harness anyway); keeps the driver total in time on nested `exp`/`^` -/
+def gexp (q : Rat) : Rat := if q > 4000 then (2 : Rat) ^ 5800 else FnRat.exp q
+def FnG : Fn Rat :=
+  { Fn.rat with
+    exp := gexp
+    pow := fun a b => if a = 0 then (if b = 0 then 1 else 0) else gexp (b * FnRat.log a) }
+
+def asRow (e : SExp) : Option (List (String × X Rat) × X Rat) :=
+  match e with
+  | list [ev, x] => do pure (← asBindings ev, ← x.asX)
+  | _ => none
+
 def lang : List SExp → Option SExp
-  | [atom "c17", formula, fvars, evars, x] => do
+  -- (c17 formula fvars ((evars x) …)): load result, then one value per row
+  | [atom "c17", formula, fvars, rows] => do
       let text ← asText formula
       let fv ← asBindings fvars
-      let ev ← asBindings evars
+      let rows ← (← rows.asList).mapM asRow
       let tbl := Gen.Tables.elements
       let toks := Op.formatInfix tbl text
       match Op.parseFormula tbl toks with
-      | .error k => pure (list [atom "err", atom k.str, atom "load"])
+      | .error k => pure (list [atom "err", atom k.str])
       | .ok e =>
         let pf := list ((e.pfx).map (fun t => atom t.str))
-        match Op.functionMembership Fn.rat tbl text fv ev (← x.asX) with
-        | .error k => pure (list [atom "err", atom k.str, atom "membership", pf])
-        | .ok (_, v) => pure (list [atom "ok", pf, exprSx e, valSx v])
+        let vals := rows.map fun (ev, x) =>
+          match Op.functionMembership FnG tbl text fv ev x with
+          | .error k => errSx k
+          | .ok (_, v) => valSx v
+        pure (list [atom "ok", pf, exprSx e, list vals])
   | [atom "float", t] => do
       match parseFloat (← asText t) with
       | some x => pure (ofX x)
